@@ -3,27 +3,34 @@ Driver: reads harness records (PROTOCOL.md) on stdin, runs the Lean model, the s
 oracles and the invariants on every case and prints verdict lines.
 -/
 import Daac.Driver.Checks
+import Daac.Driver.CliCheck
 open Daac Daac.Driver
 
-partial def loop (h : IO.FS.Stream) (out : IO.FS.Stream) (cur : Case) (env : Env) : IO Env := do
+partial def loop (h : IO.FS.Stream) (out : IO.FS.Stream) (cur : Case) (env : Env) (cli : CliCase := {}) (ncli : Nat := 0) : IO (Env × Nat) := do
   let line ← h.getLine
-  if line.isEmpty then return env
+  if line.isEmpty then return (env, ncli)
   let line := line.trimAsciiEnd.toString
-  if line.isEmpty then loop h out cur env else
+  if line.isEmpty then loop h out cur env cli ncli else
   let toks := line.splitOn " "
   match toks with
   | ["END"] =>
     let (env', lines) := checkCase env cur
     for l in lines do out.putStrLn l
-    loop h out {} env'
-  | "ERR" :: _ =>
-    out.putStrLn s!"CORR suite=K-harness case={cur.id} {line}"
-    loop h out cur env
-  | _ => loop h out (addLine cur toks) env
+    loop h out {} env' cli ncli
+  | ["XEND"] =>
+    for l in checkCli cli do out.putStrLn l
+    loop h out cur env {} (ncli + 1)
+  | t :: _ =>
+    if t.startsWith "X" then loop h out cur env (addCliLine cli toks) ncli
+    else if t == "ERR" then do
+      out.putStrLn s!"CORR suite=K-harness case={cur.id} {line}"
+      loop h out cur env cli ncli
+    else loop h out (addLine cur toks) env cli ncli
+  | [] => loop h out cur env cli ncli
 
 def main : IO UInt32 := do
   let stdin ← IO.getStdin
   let stdout ← IO.getStdout
-  let env ← loop stdin stdout {} {}
-  stdout.putStrLn (env.statLine)
+  let (env, ncli) ← loop stdin stdout {} {}
+  stdout.putStrLn (env.statLine ++ s!" cli_cases={ncli}")
   return 0
